@@ -17,15 +17,21 @@
       finishes after the request began (`delivered_cells_are_new`);
     * `trim_never_sleeps_with_work`, `empty_cache_wakes_inflight_loads`, `second_removal_is_harmless` — the three
       decision sites (read from /repo's source on every run, SH.Gen.C23) behind "no request waits forever";
-    * `stub_slot_time`, `awaiter_offset_partial`, `deliver_places_partial`, `copy_offset_partial` — placement of the
-      slots written by the storage, handed to an awaiter, copied from the cache (single-step level).
-  Not proved (checked by the correspondence and the direct oracle only): the whole-trace placement statement
-  (kept below as a comment) and "every awaiter receives exactly one message" (no_orphan_awaiter).
+    * `placement`, `placement_returned`, `placement_cache`, `returned_slot_time` — WHOLE-TRACE placement: every filled
+      slot of every request buffer and of every cached chunk holds the cell of exactly its slot time and of the
+      owner's cache key (invariant in SH.Lemmas.TsCachePlace); returned slot `i` is the slot of time `from + i·step`;
+    * `trim_survives_reset`, `trim_no_deadlock` — the two defects found in round one as model variants (a bucket
+      removed twice; the trim goroutine sleeping by the hard limit) with `decide` witnesses of the old behaviour;
+    * `stub_slot_time`, `awaiter_offset_partial`, `deliver_places_partial`, `copy_offset_partial` — the first-round
+      single-step placement lemmas (subsumed by `placement`).
+  Not proved (checked by the correspondence and the direct oracle only): that a successful request has EVERY slot of
+  its range filled, and "every awaiter receives exactly one message" (no_orphan_awaiter) — see the note at the end.
   On a tree without fixes/C23-cache2-trim-wakeups-and-double-remove.diff the three decision-site theorems do not
   build (SH.Gen.C23 then says hardLimit / whenBelow / no guard) — that is the intended alarm; the `example`s
   next to them show the old behaviour violating the property on the states observed on the real code.
 -/
 import SH.Model.TsCache
+import SH.Lemmas.TsCachePlace
 import SH.Gen.C23
 namespace SH.Props.C23
 open SH.TsCache
@@ -833,13 +839,57 @@ theorem monitor_meaning (s : InitSt) (v : LChunk) (d : List Slot) (hd : (getChun
     (copyChunk s v).bad = (s.bad || (s.l.stale == 0 && hasStale (getChunk s.chunks v.cid))) := by
   simp [copyChunk, hd]
 
-/-! ## Placement (single steps; the whole-trace statement is not proved)
+/-! ## Placement
 
-  Full statement (checked by the correspondence and by the oracle `misplaced-rows`, not proved here):
-    for every op sequence and every finished loader `l` without error, for every `i < l.le - l.ls`,
-    `l.data[l.ls + i] = some c` with `c.t = l.timeStart / nsec + (l.ls + i) * cfg.step` and `c.key = l.key`.
-  What is missing: the invariant that the chunks a loader loads are contiguous (`lc_k.pos = first.pos + k * K`,
-  established by the adopt rule of `maybeAdd`) and that `chunk.start = l.timeStart + pos * step`, carried through `init`. -/
+  `placement` is the whole-trace statement: after ANY sequence of operations, every slot that is filled in the
+  buffer of ANY request (finished or not, successful or not, any play mode) holds the cell the storage produced for
+  exactly that slot's time and for the request's cache key — whether the cell was copied from the cache, written by
+  the request's own load, or handed over by another request's load through the awaiter's `chunkOffset`.
+  The invariant behind it (SH.Lemmas.TsCachePlace: `PInv`) is carried through `init` (copy, await, the adopt rule
+  that keeps a loader's chunks contiguous), `loadChunks` (publish with running `start/end`, delivery), invalidation,
+  trimming, eviction, reset, limits and shutdown.  Hypotheses: the shard is well formed (a chunk lasts `K` steps) and
+  request ids are fresh (the model addresses a loader by id where Go holds a pointer).
+  Still not proved (correspondence + oracle `misplaced-rows` only): that a *successful* request has *every* slot of
+  its range filled — that needs the message bookkeeping of `no_orphan_awaiter`, see the note at the end. -/
+
+/-- **Placement** (C23: "returns, for each slot of the requested range, exactly the rows the storage produced for
+    that slot's time, never rows of another query or slot"). Slot `i` of a request buffer stands for the time
+    `timeStart + i·step` (`timeStart` = start of the first chunk the range touches; the request's own range is
+    `[ls, le)`, see `request_slot_time`). -/
+theorem placement (cfg : Cfg) (wf : SH.TsCache.Place.WF cfg) (ops : List Op)
+    (hf : SH.TsCache.Place.FreshIds (init cfg) ops) :
+    ∀ l ∈ (run (init cfg) ops).loaders, ∀ (i : Nat) (c : Cell), l.data[i]? = some (some c) →
+      c.t = l.timeStart / nsec + (i : Int) * cfg.step ∧ c.key = l.key :=
+  SH.TsCache.Place.placement_all cfg wf ops hf
+
+/-- in particular for what `Get` returns (`l.data[ls:le]`): returned slot `i` is buffer slot `ls + i` -/
+theorem placement_returned (cfg : Cfg) (wf : SH.TsCache.Place.WF cfg) (ops : List Op)
+    (hf : SH.TsCache.Place.FreshIds (init cfg) ops) :
+    ∀ l ∈ (run (init cfg) ops).loaders, ∀ (i : Nat) (c : Cell), (slice l.data l.ls l.le)[i]? = some (some c) →
+      c.t = l.timeStart / nsec + ((l.ls + i : Nat) : Int) * cfg.step ∧ c.key = l.key := by
+  intro l hl i c h
+  exact placement cfg wf ops hf l hl (l.ls + i) c (SH.TsCache.Place.getElem?_slice_some _ _ _ _ _ h).2
+
+/-- cached chunk data is placed as well: slot `j` of an attached or detached chunk holds the cell of time
+    `chunk.start + j·step` of the chunk's cache key -/
+theorem placement_cache (cfg : Cfg) (wf : SH.TsCache.Place.WF cfg) (ops : List Op)
+    (hf : SH.TsCache.Place.FreshIds (init cfg) ops) (cid : Nat) (d : List Slot)
+    (hd : (getChunk (run (init cfg) ops).chunks cid).data = some d) (j : Nat) (c : Cell) (hj : d[j]? = some (some c)) :
+    c.t = (getChunk (run (init cfg) ops).chunks cid).start / nsec + (j : Int) * cfg.step ∧
+      c.key = (getChunk (run (init cfg) ops).chunks cid).key := by
+  have h := SH.TsCache.Place.run_P ops (init cfg) wf hf (SH.TsCache.Place.PInv_init cfg)
+  have hc : (run (init cfg) ops).cfg = cfg := by
+    have : ∀ (ops : List Op) (s : St), (run s ops).cfg = s.cfg := by
+      intro ops
+      induction ops with
+      | nil => intro s; rfl
+      | cons op ops ih => intro s; simp only [run, List.foldl_cons] at ih ⊢; rw [ih, SH.TsCache.Place.step_cfg]
+    exact this ops _
+  have := h.ci.pc cid d hd j (some c) hj c rfl
+  rw [hc] at this
+  exact this
+
+/-! ### single-step placement lemmas (kept from the first round; now subsumed by `placement`) -/
 
 theorem getElem?_slice {α} (l : List α) (a b k : Nat) (h : k < b - a) : (slice l a b)[k]? = l[a + k]? := by
   simp [slice, h]
@@ -952,6 +1002,13 @@ example : (run (init cfg0) ops0).info.size = 396 := by decide
 example : ((run (init cfg0) ops0).loaders.map (fun l => (l.id, l.finished, l.data.map (fun x => x.map (·.ver))))) =
     [(1, true, [some 1, some 1]), (2, true, [some 2, some 2]), (3, true, [some 2, some 2])] := by decide
 
+/-- hypotheses of `placement` on the example run: well-formed shard, fresh ids; and its conclusion is not vacuous:
+    request 3 (a pure cache hit) holds the cells of times 100 and 101 -/
+example : SH.TsCache.Place.WF cfg0 := by decide
+example : SH.TsCache.Place.FreshIds (init cfg0) ops0 := by decide
+example : ((run (init cfg0) ops0).loaders.map (fun l => (l.id, l.timeStart / nsec, l.data.map (fun x => x.map (·.t))))) =
+    [(1, 100, [some 100, some 101]), (2, 100, [some 100, some 101]), (3, 100, [some 100, some 101])] := by decide
+
 /-- emptied: after a reset every chunk is detached (hypothesis of `accounting_zero_when_emptied`) while the size was 396 before -/
 example : ((run (init cfg0) (ops0 ++ [.reset 200000000006])).chunks.all (·.detached)) = true ∧
     (run (init cfg0) (ops0 ++ [.reset 200000000006])).info.size = 0 := by decide
@@ -970,5 +1027,199 @@ example : ¬ CF 10 5 staleChunk := by
   intro h
   have := h.2.1 (by decide)
   exact this.1 (by decide)
+
+/-! ## The two defects as model variants (before / after `fix: series cache (cache2) no longer crashes on reset …`) -/
+
+/-! ### D1 — a bucket removed twice: `reset` racing with `reduceMemoryUsage`
+
+  `reduceMemoryUsage` first collects every bucket into its heap and then removes them one by one; `reset` (any
+  goroutine) may remove the same buckets in between.  `held` is the heap (bucket keys = the pointers it holds). -/
+
+/-- `removeBucketUnlocked` on a bucket pointer collected earlier. `guard` = it returns early when the bucket is no
+    longer in `shard.bucketM`; without the guard the unlinked bucket's nil list links are dereferenced (`none`). -/
+def removeHeld (guard : Bool) (s : St) (key : Nat) : Option St :=
+  match findBucket key s.buckets with
+  | some _ => some (removeBucket s key)
+  | none => if guard then some s else none
+
+/-- the eviction loop of `reduceMemoryUsage` over the heap collected earlier -/
+def reduceHeld (guard : Bool) : List Nat → St → Option St
+  | [], s => some s
+  | k :: ks, s =>
+    match removeHeld guard s k with
+    | none => none
+    | some s1 => if s1.info.size <= s1.soft then some s1 else reduceHeld guard ks s1
+
+/-- the race: the trim goroutine collects its heap, `reset` runs, the trim goroutine goes on -/
+def trimRace (guard : Bool) (s : St) : Option St := reduceHeld guard (s.buckets.map (·.key)) (resetAll s)
+
+/-- with the guard the eviction loop survives any stale heap, and keeps the accounting exact -/
+theorem reduceHeld_guarded (held : List Nat) (s : St) (h : Acc s) : ∃ s', reduceHeld true held s = some s' ∧ Acc s' := by
+  induction held generalizing s with
+  | nil => exact ⟨s, rfl, h⟩
+  | cons k ks ih =>
+    have step : ∀ s1 : St, Acc s1 →
+        ∃ s', (if s1.info.size ≤ s1.soft then some s1 else reduceHeld true ks s1) = some s' ∧ Acc s' := by
+      intro s1 h1
+      by_cases hc : s1.info.size ≤ s1.soft
+      · simp only [hc, if_true]; exact ⟨_, rfl, h1⟩
+      · simp only [hc, if_false]; exact ih _ h1
+    cases hfb : findBucket k s.buckets with
+    | none => simp only [reduceHeld, removeHeld, hfb, if_true]; exact step s h
+    | some b => simp only [reduceHeld, removeHeld, hfb]; exact step _ (removeBucket_acc _ _ h)
+
+/-- the code in /repo (guard read from the source): a reset during trimming never crashes the trim goroutine -/
+theorem trim_survives_reset (s : St) (h : Acc s) :
+    ∃ s', trimRace SH.Gen.C23.removeGuard s = some s' ∧ Acc s' := by
+  have : SH.Gen.C23.removeGuard = true := by decide
+  rw [this]
+  exact reduceHeld_guarded _ _ (resetAll_acc _ h)
+
+/-- before the fix: one cached bucket, `reset` between heap collection and removal ⇒ nil dereference -/
+example : trimRace false (run (init cfg0) ops0) = none := by decide
+example : (trimRace true (run (init cfg0) ops0)).isSome = true := by decide
+
+
+/-! ### D2 — the trim goroutine against the loads parked at the soft limit
+
+  A fragment with just the state the defect lives in: the cache size, the two limits, whether the trim goroutine is
+  parked in `trimCond.Wait()`, and how many loads are parked in `tryNotExceedMemorySoftLimitInflight` (they wait
+  for an `allocCond` broadcast while the size is above the soft limit).  `sync.Cond.Signal` wakes a parked
+  goroutine and is lost on a busy one — both are `asleep := false`. -/
+
+structure TG where
+  size : Int
+  maxSize : Int
+  soft : Int
+  asleep : Bool
+  parked : Nat
+deriving DecidableEq, Repr
+
+inductive TEv
+  | evict (to : Int)     -- busy trim goroutine: reduceMemoryUsage evicts down to `to ≤ soft`; its info update broadcasts allocCond
+  | decide               -- busy trim goroutine at the bottom of its loop: `trimCond.Wait()` or go round again
+  | publish (n : Nat)    -- a load publishes `n` bytes; updateRuntimeInfoUnlocked signals trimCond when above the soft limit
+  | loadStart            -- updateInflightApprox(req, 0): signal trimCond, then park while above the soft limit
+deriving DecidableEq, Repr
+
+def tgSignal (t : TG) : TG := { t with asleep := false }
+
+def tgStep (v : SH.Gen.C23.TrimWait) (t : TG) : TEv → TG
+  | .evict to =>
+    if !t.asleep && decide (t.soft < t.size) && decide (to ≤ t.soft) && decide (0 ≤ to) then { t with size := to, parked := 0 } else t
+  | .decide => if t.asleep then t else { t with asleep := trimSleeps v t.maxSize t.soft t.size t.size }
+  | .publish n =>
+    if t.maxSize != 0 && decide (t.soft < t.size + n) then tgSignal { t with size := t.size + n } else { t with size := t.size + n }
+  | .loadStart =>
+    if decide (0 < t.soft) && decide (t.soft < t.size) then { (tgSignal t) with parked := t.parked + 1 } else t
+
+def tgRun (v : SH.Gen.C23.TrimWait) (t : TG) (evs : List TEv) : TG := evs.foldl (tgStep v) t
+
+/-- nobody is left to wake anybody: the trim goroutine sleeps and loads are parked waiting for it -/
+def tgDeadlock (t : TG) : Bool := t.asleep && decide (0 < t.parked)
+
+/-- limits as `setLimits` leaves them (no hard limit ⇒ no soft limit) and the two facts the fragment maintains -/
+def TGInv (t : TG) : Prop :=
+  (0 < t.soft → t.maxSize ≠ 0) ∧ (0 < t.parked → 0 < t.soft ∧ t.soft < t.size) ∧
+  (t.asleep = true → trimHasWork t.maxSize t.soft t.size t.size = false)
+
+theorem tgStep_inv (t : TG) (ev : TEv) (h : TGInv t) : TGInv (tgStep SH.Gen.C23.trimWait t ev) := by
+  have hv : SH.Gen.C23.trimWait = .softLimitOrEmpty := by decide
+  obtain ⟨h1, h2, h3⟩ := h
+  rw [hv]
+  cases ev with
+  | evict to =>
+    simp only [tgStep]
+    split
+    · rename_i hc
+      simp only [Bool.and_eq_true, Bool.not_eq_true', decide_eq_true_eq] at hc
+      refine ⟨h1, by intro hp; simp at hp, ?_⟩
+      intro ha; simp only [] at ha; rw [hc.1.1.1] at ha; cases ha
+    · exact ⟨h1, h2, h3⟩
+  | decide =>
+    simp only [tgStep]
+    split
+    · exact ⟨h1, h2, h3⟩
+    · refine ⟨h1, h2, ?_⟩
+      intro ha
+      simp only [trimSleeps, trimHasWork, Bool.or_eq_true, beq_iff_eq, decide_eq_true_eq, Bool.and_eq_false_imp,
+        Bool.and_eq_true, bne_iff_ne, ne_eq, decide_eq_false_iff_not] at ha ⊢
+      omega
+  | publish n =>
+    simp only [tgStep]
+    split
+    · refine ⟨h1, ?_, by intro ha; simp [tgSignal] at ha⟩
+      intro hp; have := h2 hp; simp only [tgSignal]; omega
+    · rename_i hc
+      refine ⟨h1, ?_, ?_⟩
+      · intro hp; have := h2 hp; simp only []; omega
+      · intro ha
+        simp only [Bool.and_eq_true, bne_iff_ne, ne_eq, decide_eq_true_eq, not_and, Int.not_lt] at hc
+        simp only [trimHasWork, Bool.and_eq_false_imp, Bool.and_eq_true, bne_iff_ne, ne_eq, decide_eq_true_eq,
+          decide_eq_false_iff_not]
+        intro hm; have := hc hm.1; omega
+  | loadStart =>
+    simp only [tgStep]
+    split
+    · rename_i hc
+      simp only [Bool.and_eq_true, decide_eq_true_eq] at hc
+      exact ⟨h1, fun _ => hc, by intro ha; simp [tgSignal] at ha⟩
+    · exact ⟨h1, h2, h3⟩
+
+/-- **With the code in /repo** (sleep condition read from the source) the trim goroutine never sleeps while loads are
+    parked waiting for it, whatever the order of evictions, sleep decisions, publishing loads and starting loads. -/
+theorem trim_no_deadlock (t : TG) (evs : List TEv) (h : TGInv t) : tgDeadlock (tgRun SH.Gen.C23.trimWait t evs) = false := by
+  have hrun : TGInv (tgRun SH.Gen.C23.trimWait t evs) := by
+    unfold tgRun
+    induction evs generalizing t with
+    | nil => exact h
+    | cons ev evs ih => exact ih _ (tgStep_inv t ev h)
+  obtain ⟨h1, h2, h3⟩ := hrun
+  cases ha : (tgRun SH.Gen.C23.trimWait t evs).asleep with
+  | false => simp [tgDeadlock, ha]
+  | true =>
+    by_cases hp : 0 < (tgRun SH.Gen.C23.trimWait t evs).parked
+    · have w := h3 ha
+      have := h2 hp
+      have := h1 this.1
+      simp only [trimHasWork, Bool.and_eq_false_imp, Bool.and_eq_true, bne_iff_ne, ne_eq, decide_eq_true_eq,
+        decide_eq_false_iff_not] at w
+      omega
+    · simp [tgDeadlock, hp]
+
+/-- the interleaving observed on the real cache (limits 10/8): the trim goroutine has just evicted down to 7 and is
+    still busy; a load publishes 2 bytes (signal lost), a new load signals (lost) and parks; the goroutine reaches its
+    sleep decision.  Before the fix (`size <= maxSize`) it sleeps: deadlock.  With the fix it goes round again. -/
+def tgWitness : List TEv := [.evict 7, .publish 2, .loadStart, .decide]
+def tg0 : TG := { size := 9, maxSize := 10, soft := 8, asleep := false, parked := 0 }
+example : tgDeadlock (tgRun .hardLimit tg0 tgWitness) = true := by decide
+example : tgDeadlock (tgRun .softLimitOrEmpty tg0 tgWitness) = false := by decide
+example : TGInv tg0 := by simp [TGInv, tg0, trimHasWork]
+
+
+/-- the request's own range: for a request `[f, …)` whose start is a multiple of the step (`f = m·step`, as every
+    caller passes), buffer slot `ls + i` — returned slot `i` — is the slot of time `f + i·step`.  Together with
+    `placement_returned`: returned slot `i` holds only rows of time `from + i·step` of the request's cache key. -/
+theorem returned_slot_time (cfg : Cfg) (wf : SH.TsCache.Place.WF cfg) (hs : 0 < cfg.step) (hK : 0 < cfg.K) (m : Int) (i : Nat)
+    (hm : 0 ≤ m) :
+    chunkStartOf cfg (m * cfg.step * nsec) / nsec +
+        (((((m * cfg.step * nsec - chunkStartOf cfg (m * cfg.step * nsec)) / (cfg.step * nsec)).toNat + i : Nat)) : Int) * cfg.step
+      = m * cfg.step + (i : Int) * cfg.step :=
+  SH.TsCache.Place.request_slot_time cfg wf hs hK m i hm
+
+example : (0 : Int) < cfg0.step ∧ 0 < cfg0.K := by decide
+
+/-! ## Not proved: `no_orphan_awaiter` and "a successful request has every slot filled"
+
+  Attempted in the second round, not closed.  The invariant needed is (W1) for every unfinished loader
+  `waitN = [loadPending] + #{awaiters with req = id}` over all chunks, (W2) every chunk with awaiters is in the chunk
+  list of an in-flight loader, which in turn needs (W5) `chunk.loading = #{in-flight loaders covering it}` for attached
+  chunks — a chunk can be loaded by two loaders at once (adopt rule), so implications do not suffice and the counts
+  must be carried through the nested folds of `loadChunks` (per chunk, per awaiter, over all loaders).  The
+  ingredients that are in place: loader ids are unique and awaiters always name an existing loader (`PInv.nd`,
+  `AwOK`), a loader's chunk list never changes after `init` and is contiguous (`Prog`), `publish` empties the
+  awaiter list and `deliver` is applied once per awaiter (definitions).  Until then both statements are checked by
+  the correspondence (per-chunk awaiter counts, request completion) and the oracles `request-stuck`,
+  `request-never-returns`, `misplaced-rows` (which demands non-empty slots). -/
 
 end SH.Props.C23
